@@ -228,6 +228,7 @@ var raceMixes = []struct {
 	{"schema-beside-writers", mixSchema},
 	{"keys", mixKeys},
 	{"enum-intern", mixEnum},
+	{"vacuum-beside-writers", mixVacuum},
 }
 
 func raceRound(w *W, idx int) {
@@ -630,6 +631,64 @@ func mixEnum(w *W, idx, rep int) map[string]int64 {
 	return map[string]int64{"enum_stores_of_new_strings": writes, "reads": reads, "commits": hook.commits}
 }
 
+// the cleanup goroutine (1 ms interval) deleting expired rows beside writers, extenders and readers
+func mixVacuum(w *W, idx, rep int) map[string]int64 {
+	c := column.NewCollection(column.Options{Capacity: 64, Vacuum: time.Millisecond})
+	defer c.Close()
+	c.CreateColumn("a", column.ForInt64())
+	c.CreateColumn("s", column.ForString())
+	hook := &stressHook{delayPct: 10, seed: w.Seed + int64(idx)}
+	hook.install(c)
+	defer hook.remove()
+	var left int32 = 4
+	var ins, reads int64
+	n := scale(w, 1500, 5000)
+	var fns []func()
+	for wi := 0; wi < 4; wi++ {
+		wi := wi
+		fns = append(fns, func() {
+			defer atomic.AddInt32(&left, -1)
+			r := rngFor(w.Seed, 27, idx, wi)
+			for i := 0; i < n; i++ {
+				c.Query(func(txn *column.Txn) error {
+					for j := 0; j < 4; j++ {
+						txn.Insert(func(row column.Row) error {
+							row.SetInt64("a", int64(i))
+							row.SetString("s", "v")
+							if r.Intn(3) != 0 {
+								row.SetTTL(time.Duration(1+r.Intn(5)) * time.Millisecond)
+							}
+							return nil
+						})
+					}
+					return nil
+				})
+				atomic.AddInt64(&ins, 4)
+				if i%10 == 0 {
+					c.Query(func(txn *column.Txn) error {
+						ttl := txn.TTL()
+						return txn.With("expire").Range(func(uint32) { ttl.Extend(time.Millisecond) })
+					})
+				}
+			}
+		})
+	}
+	for ri := 0; ri < 3; ri++ {
+		fns = append(fns, func() {
+			for atomic.LoadInt32(&left) > 0 {
+				c.Query(func(txn *column.Txn) error {
+					a := txn.Int64("a")
+					txn.Range(func(uint32) { a.Get(); atomic.AddInt64(&reads, 1) })
+					return nil
+				})
+				c.Count()
+			}
+		})
+	}
+	parallel(fns...)
+	return map[string]int64{"inserts": ins, "reads": reads, "rows_left": int64(c.Count()), "commits": hook.commits}
+}
+
 func init() {
 	register(&Property{ID: "C10", Level: "exploration",
 		Rule:   "one case = one round: 8 writers x 2 500 (6 000) transactions stamp 1-3 of 66 target rows (three blocks) with one tag stored redundantly in six columns of different kinds (10% roll back with a poisoned tag); 8 readers (QueryAt, Range over With(column), Range over With(index)) decode the six columns inside the callback until the writers are done; micro-delays are injected at the commit hooks (also inside the latch, between columns); race-detector build; non-trivial = more than 1 000 reader callbacks; distinct = (round, callbacks/1000)",
@@ -647,12 +706,12 @@ func init() {
 		MinEvents: map[string]int64{"reader_callbacks": 10000, "reader_callbacks_overlapping_a_commit": 1000},
 	})
 	register(&Property{ID: "C18", Level: "exploration",
-		Rule:   "one case = one round of one of six workload mixes aimed at shared mutable state (writers growing the collection across blocks beside readers; offset reuse; snapshots and restores into other collections beside multi-block writers; index/sorted-index/trigger creation and removal beside writers and readers; key table under parallel upserts; enum interning of new strings beside readers), each a fixed number of transactions per goroutine on 8-16 goroutines, race-detector build with micro-delays at the hooks, each mix repeated; a race report = violation unless its stack pair matches a recorded finding exactly; a round that never completes = violation after goroutine-dump classification; distinct = (mix, repetition)",
+		Rule:   "one case = one round of one of seven workload mixes aimed at shared mutable state (writers growing the collection across blocks beside readers; offset reuse; snapshots and restores into other collections beside multi-block writers; index/sorted-index/trigger creation and removal beside writers and readers; key table under parallel upserts; enum interning of new strings beside readers; the cleanup goroutine at a 1 ms interval beside inserts with short TTLs, extensions and readers), each a fixed number of transactions per goroutine on 8-16 goroutines, race-detector build with micro-delays at the hooks, each mix repeated; a race report = violation unless its stack pair matches a recorded finding exactly; a round that never completes = violation after goroutine-dump classification; distinct = (mix, repetition)",
 		Assume: []string{"the race detector only reports races that the executed schedules make observable", "deadlock = watchdog (40 min per worker) expired and every workload goroutine blocked in a sync/channel wait; anything else that exceeds the watchdog is inconclusive"},
 		Plan: func(tier string) []Plan {
-			n := 6 * 2
+			n := len(raceMixes) * 2
 			if tier == "thorough" {
-				n = 6 * 20
+				n = len(raceMixes) * 20
 			}
 			return []Plan{{Cases: n, Workers: 2, Race: true, MaxProcs: 8, Timeout: 40 * time.Minute, HangIsViol: true}}
 		},
